@@ -49,15 +49,22 @@ func genC10(seed uint64) *Scenario {
 		ops = append(ops, op)
 	}
 	bp := func(b bool) *bool { return &b }
-	sharedMeta := r.Chance(850) // swarm: one Swagger meta-schema object for all validations of the run (10x faster after the first) / each document's own
-	reuse := r.Chance(500)      // swarm: the validations of this run share one loaded document object / load the bytes afresh each time
-	fromFile := r.Chance(300)   // swarm: the document is loaded from a file (it then has a file path; $ref resolution takes the file-based branches)
+	sharedMeta := r.Chance(850)                // swarm: one Swagger meta-schema object for all validations of the run (10x faster after the first) / each document's own
+	reuse := r.Chance(500)                     // swarm: the validations of this run share one loaded document object / load the bytes afresh each time
+	fromFile := r.Chance(300)                  // swarm: the document is loaded from a file (it then has a file path; $ref resolution takes the file-based branches)
+	reuseSV := r.Chance(300)                   // swarm: one long-lived SpecValidator object serves the validations of the run / a new one each time
+	floodPM := pick(r, []int{0, 0, 0, 0, 150}) // swarm: some runs compile hundreds of distinct patterns between validations
+	nflood := 0
 	churn := func() {
+		if r.Chance(floodPM) {
+			nflood++
+			add(Op{Kind: KFlood, Str: fmt.Sprintf("fl%d_", nflood), LL: pick(r, []int{70, 140, 300})})
+		}
 		for i := 0; i < r.Intn(3); i++ {
 			if r.Chance(250) {
 				// another document (same definition / operation names, other contents) validated in between
 				od, _ := GenSpec(r, pick(r, []int{0, 1, 2, 4}))
-				add(Op{Kind: KSpec, Doc: js(od), COE: bp(r.Chance(500)), OrderSeed: r.U64() | 1, SharedMeta: sharedMeta, Role: "other-doc"})
+				add(Op{Kind: KSpec, Doc: js(od), COE: bp(r.Chance(500)), OrderSeed: r.U64() | 1, SharedMeta: sharedMeta, ReuseSV: reuseSV, Role: "other-doc"})
 				continue
 			}
 			if r.Chance(700) {
@@ -72,7 +79,7 @@ func genC10(seed uint64) *Scenario {
 		nval = pick(r, []int{3, 4, 6, 8, 10, 14})
 	}
 	for i := 0; i < nval; i++ {
-		if r.Chance(300) {
+		if r.Chance(300) || floodPM > 0 {
 			churn()
 		}
 		if r.Chance(120) {
@@ -92,9 +99,11 @@ func genC10(seed uint64) *Scenario {
 		default:
 			op.Kind = KSpecOne
 		}
+		op.ReuseSV = reuseSV && op.Kind == KSpec && op.COE != nil
 		if i == 1 && ops[0].Kind == KSpec && ops[0].COE != nil {
 			// make sure every run repeats at least one (document, option) pair under another order
 			op.Kind, op.COE = KSpec, bp(*ops[0].COE)
+			op.ReuseSV = reuseSV
 		}
 		add(op)
 	}
@@ -102,8 +111,8 @@ func genC10(seed uint64) *Scenario {
 		// the twin (same document plus warning-only conditions) under both settings: its errors must be those of the document
 		sc.Params = map[string]any{"twin_of": doc}
 		for _, coe := range []bool{true, false} {
-			add(Op{Kind: KSpec, Doc: doc, COE: bp(coe), OrderSeed: r.U64() | 1, SharedMeta: sharedMeta, FromFile: fromFile, Role: "twin-base"})
-			add(Op{Kind: KSpec, Doc: twin, COE: bp(coe), OrderSeed: r.U64() | 1, SharedMeta: sharedMeta, FromFile: fromFile, Role: "twin"})
+			add(Op{Kind: KSpec, Doc: doc, COE: bp(coe), OrderSeed: r.U64() | 1, SharedMeta: sharedMeta, FromFile: fromFile, ReuseSV: reuseSV, Role: "twin-base"})
+			add(Op{Kind: KSpec, Doc: twin, COE: bp(coe), OrderSeed: r.U64() | 1, SharedMeta: sharedMeta, FromFile: fromFile, ReuseSV: reuseSV, Role: "twin"})
 		}
 	}
 	sc.Tasks = [][]Op{ops}
@@ -388,7 +397,7 @@ func runC10(sc *Scenario, keepLog bool) *RunReport {
 		if op.Kind == KSpec && out.Panic == "" {
 			// (5) the global setter changes what later validators capture, nothing else
 			wantCap := fmt.Sprintf("captured_coe=%v ", defCOE)
-			if !strings.HasPrefix(out.Extra, wantCap) {
+			if !strings.HasPrefix(out.Extra, wantCap) && !strings.HasPrefix(out.Extra, "captured_coe=reused ") {
 				viol(i, op, "option-capture", "captured", wantCap, out.Extra, "a new spec validator did not capture the package-level default in force")
 				break
 			}
@@ -519,6 +528,7 @@ func runC10(sc *Scenario, keepLog bool) *RunReport {
 	}
 	rep.probe("spec-validations", nspec)
 	rep.fault("same-loaded-document-validated-again", env.docReuses)
+	rep.fault("same-spec-validator-object-used-again", env.svReuses)
 	rep.probe("distinct-map-orders", len(orders))
 	rep.NonTrivial = nspec >= 2
 	finishReport(rep, sim, kinds)
